@@ -727,3 +727,7 @@ impl Prop for C08 {
         vec!["has-patches", "partial-survival", "survivors-demanded", "mode:exhaustive", "mode:edit", "mode:distinct"]
     }
 }
+
+pub fn prop() -> Option<&'static dyn Prop> {
+    Some(&C08)
+}
